@@ -233,6 +233,8 @@ fn snell_case(ctx: &mut Ctx, c: &CrystalType, cs: &CrystalSetup, ctheta: f64, cp
     c, ctheta, cphi, t_c, lam, pol_tok(pol), bphi, ext_deg
   );
   ctx.count(&format!("snell/crystal={}", c));
+  // K: the internal-from-external search itself (cost closure + bounded 1-D Nelder–Mead)
+  snell_int_case(ctx, &beam, cs, &n, ctheta, cphi, pol, ext);
   let r = guard(|| {
     beam.set_theta_external(ext * RAD, cs);
     let ti = *(beam.theta_internal() / RAD);
@@ -264,6 +266,18 @@ fn snell_case(ctx: &mut Ctx, c: &CrystalType, cs: &CrystalSetup, ctheta: f64, cp
       );
     }
   }
+}
+
+fn snell_int_case(ctx: &mut Ctx, beam: &Beam, cs: &CrystalSetup, n: &Vector3<f64>, ctheta: f64, cphi: f64, pol: PolarizationType, ext: f64) {
+  let ti = guard(|| *(Beam::calc_internal_theta_from_external(beam, ext * RAD, cs) / RAD));
+  ctx.k(
+    "snell_int",
+    &format!(
+      "{} {} {} {} {} {} {} {}",
+      fl(n.x), fl(n.y), fl(n.z), fl(ctheta), fl(cphi), fl(*(beam.phi() / RAD)), pol_tok(pol), fl(ext)
+    ),
+    &ti.map(fl).unwrap_or_else(|| "PANIC".into()),
+  );
 }
 
 fn conv_case(ctx: &mut Ctx) {
@@ -398,6 +412,14 @@ pub fn run(ctx: &mut Ctx) {
           let lam = gen_lambda(&mut ctx.rng, c);
           snell_case(ctx, c, &cs, ctheta, cphi, t_c, lam, *pol, bphi, ext_deg);
         }
+      }
+      // the search outside the statement's domain (negative, −0, beyond 90°): correspondence only
+      for ext in [-0.0, -0.3, 1.5, 1.6, 2.0, -2.0, 1e-300, FRAC_PI_2] {
+        let lam = gen_lambda(&mut ctx.rng, c);
+        let pol = gen_pol(&mut ctx.rng);
+        let beam = Beam::new(pol, ctx.rng.range(0.0, TAU) * RAD, 0.0 * RAD, lam * M, 100e-6 * M);
+        let n = *cs.crystal.get_indices(beam.vacuum_wavelength(), cs.temperature);
+        snell_int_case(ctx, &beam, &cs, &n, ctheta, cphi, pol, ext);
       }
       // forward Snell on internal angles (K) and the automatic waist position
       for pol in both.iter() {
